@@ -1135,8 +1135,11 @@ class Monitor(object):
                 if mode in ("same", "add"):
                     ctx.ev("item:%s-judged" % mode)
                     if q is not p:
+                        # own discriminator when the namespace holds that label several times (legal after the "add"
+                        # strategy): a copy route that re-maps by label then picks the first of them - recorded defect
+                        multi = "/label-carried-by-several-members" if cf(l) in pre_multi and q.label is not None and cf(q.label) == cf(l) else ""
                         v("taxon-replaced", "item labelled %r should keep its taxon object (%s) but got another one (label %r)" % (l, mode, q.label),
-                          disc=(E.disc + "/" if E.disc else "") + mode)
+                          disc=(E.disc + "/" if E.disc else "") + mode + multi)
                     exempt.add(id(q))
                 elif mode == "distinct":
                     ctx.ev("item:distinct-judged")
